@@ -149,6 +149,15 @@ PROPS = {
         assumptions=SIM_ASSUME + ["an ended connection is dead in both directions (close: EOF + EPIPE, reset: ECONNRESET both ways)", "PUB/XPUB send is fire-and-forget: write-first discovery on a publisher only requires release after the read side was polled"],
         hang_is_violation=True,
     ),
+    "C17": dict(
+        built=True, level="fault_enumeration", design_ref="4/C17",
+        technique="runtime monitoring on the real runtime: per-case tokio multi-thread runtime, real TCP v4/v6 and IPC listeners, raw peers; observations = OS-level connect refused / IPC file gone, raw peers reading end-of-stream, runtime alive-task metric back to 0; bounded waits guarded by a canary (inconclusive if the canary is slow); in-memory mirror with pipe-drop and gated-task monitors",
+        rule="grid = socket type (9) x transport {tcp4, tcp6, ipc} x history prefix {bound only, bound + 2 accepted peers, connected out, mid-traffic with a parked-then-abandoned recv, raw client stuck mid-handshake} x {close, drop} = 270 cells (thorough: all; quick: all tcp4 cells + a seeded third of the others) plus the in-memory mirror 9 types x {idle, recv parked then dropped, after traffic} x {close, drop}; every cell is non-trivial; distinct by grid coordinates",
+        text="Every grid cell executed is a complete create/use/close-or-drop lifecycle on real OS sockets; 'close reports each failure it met' is only checked in the no-failure direction (failures cannot be injected at OS level).",
+        note="trusted: tokio's num_alive_tasks metric; OS connect semantics for 'refuses new connections'",
+        assumptions=COMMON_ASSUME + ["'shortly afterwards' after drop = within a 6 s bounded wait while a plain tokio canary completes connect/accept/close/EOF in < 1 s; otherwise inconclusive", "close() returning a non-empty error list when nothing failed counts as a violation; the converse direction is not reachable"],
+        hang_is_violation=True,
+    ),
     "C19": dict(
         built=True, level="exploration", design_ref="4/C19",
         technique="runtime differential monitor: library parser vs independent reference parser over exhaustive small-alphabet strings, grammar-based and random Unicode strings; panic, accept/reject, classification and round-trip oracles",
@@ -209,4 +218,4 @@ def write_manifest(path):
 
 
 HOOK_COMMITS = ["c9656b6"]
-FIX_COMMITS = ["48acad6", "f3d84e9", "be9d015", "f1a8fb7", "1cfb825", "8c4f97d", "f5bbfca", "5a43de4", "bb4d285", "5ad7c15", "d7cbe1d", "4a082f5", "870d37c", "bbdc498"]
+FIX_COMMITS = ["48acad6", "f3d84e9", "be9d015", "f1a8fb7", "1cfb825", "8c4f97d", "f5bbfca", "5a43de4", "bb4d285", "5ad7c15", "d7cbe1d", "4a082f5", "870d37c", "bbdc498", "8f19308", "42821fe"]
